@@ -58,6 +58,7 @@ pub fn judge(tree: &E, via_text: bool) -> Verdict {
     }
     let comp = match policy::compile_tree(&t, None, "/") {
         CompileOutcome::Ok(c) => c,
+        CompileOutcome::Err(_) if !crate::checks::c12::unsupported_names(&t).is_empty() => return Verdict::Skip("contains an unsupported construct (C12 decides that)"),
         CompileOutcome::Err(e) => return Verdict::Fail(format!("tree {t:?} uses only supported constructs but compile failed: {e}")),
         CompileOutcome::Panic(p) => return Verdict::Fail(format!("compile panicked on {t:?}: {p}")),
     };
@@ -180,6 +181,9 @@ pub fn run(ctx: &Ctx) -> Report {
     }
     total.merge(st);
     total.exhaustive_parts.push("chains of 2..300 operands (and / or / ',') with the only action first, in the middle or last; 1..100 nested negations above an action".into());
+    // interaction triples: three supported leaf kinds under every operator skeleton
+    let tr = crate::combo::run_triples(ctx.seed, &crate::combo::supported_kinds(), ctx.tier.pick(32, 2), |t| judge(t, stable_hash(t) % 4 == 0), |t| case_json(t, stable_hash(t) % 4 == 0));
+    total.merge(tr);
     let cases = ctx.tier.pick(60_000u32, 600_000u32);
     let rnd = run_shards(16, |shard| {
         let mut st = Stats::new();
